@@ -148,9 +148,11 @@ class Paths:
         self._memo = {}
 
     # ---- public ----------------------------------------------------------------------------------------
-    def of(self, fn, depth=0):
-        """[Summ] over fn's own parameters (closures: ('upvar', k, name) and ('param', i>=2))."""
-        key = (fn.id, depth >= self.depth)
+    def of(self, fn, depth=0, seed=None):
+        """[Summ] over fn's own parameters (closures: ('upvar', k, name) and ('param', i>=2)).  seed: {upvar node: value} —
+        captures that are themselves callables are given to the closure before it is summarised, so that combinators
+        and searches inside it that take the captured callable expand (`let p = |x| ..; opt.then(|| it.find(p))`)."""
+        key = (fn.id, depth >= self.depth) if not seed else (fn.id, depth >= self.depth, repr(sorted(seed.items(), key=repr)))
         if key in self._memo:
             r = self._memo[key]
             if r is None:
@@ -159,6 +161,8 @@ class Paths:
                 raise r
             return r
         self._memo[key] = None
+        saved_seed = getattr(self, "_seed", None)
+        self._seed = seed
         try:
             try:
                 r = self._summarise(fn, depth)
@@ -180,6 +184,8 @@ class Paths:
         except Exception:
             del self._memo[key]
             raise
+        finally:
+            self._seed = saved_seed
         self._memo[key] = r
         return r
 
@@ -374,6 +380,8 @@ class Paths:
     # ---- expansion ---------------------------------------------------------------------------------------
     def _expand(self, fn, events, depth):
         states = [_State()]
+        if getattr(self, "_seed", None):
+            states[0].env.update(self._seed)
         ret = None
         for e in events:
             if e[0] == "write":
@@ -634,8 +642,19 @@ class Paths:
                 return None
             caps = c[2]
             out = []
+            seed = {}
+            for k_, cap in enumerate(caps):
+                cv = strip_refs(cap)
+                if is_closure(cv) or is_fnitem(cv):
+                    nm_ = None
+                    for u in g.body.get("upvars", []):
+                        pl_ = u["place"]
+                        fs_ = [e_["f"] for e_ in pl_["p"] if isinstance(e_, dict) and "f" in e_]
+                        if pl_["l"] == 1 and fs_ and fs_[0] == k_:
+                            nm_ = u["name"]
+                    seed[("upvar", k_, nm_)] = cap
             try:
-                summs = self.of(g, depth + 1)
+                summs = self.of(g, depth + 1, seed=seed or None)
             except Unsupported:
                 return None
             for s in summs:
@@ -852,6 +871,8 @@ class Paths:
                     keep = (v == "Ok") == (name == "ok")
                     out.append((facts, [], some(pay) if keep else NONE))
                 return out
+            if name == "flatten" and len(args) == 1 and is_opt:
+                return [(facts, [], pay if v == "Some" else NONE) for facts, pay, v in self._split(x, kind)]
             if name == "unwrap_or_default" and len(args) == 1:
                 return [(facts, [], pay if v == good else ("call", "core::default::Default::default", (), ())) for facts, pay, v in self._split(x, kind)]
             if name in ("unwrap", "expect", "unwrap_unchecked") and args:
